@@ -92,10 +92,26 @@ def write_upload_config(sb, st, provider, max_groups=3, max_age=None):
     gh = sb.path("home", ".gnupg")
     os.makedirs(gh, exist_ok=True)
     os.chmod(gh, 0o700)
+    warm_gpg(sb)
+
+
+def warm_gpg(sb):
+    gh = sb.path("home", ".gnupg")
+    # a first gpg invocation in a fresh home prints "keybox created" on stderr, which vsb (rightly or not) treats as a gpg error: use an
+    # initialised home, as any real user has
+    subprocess.run(["gpg", "--homedir", gh, "--batch", "--list-keys"], stdout=subprocess.DEVNULL, stderr=subprocess.DEVNULL)
+    # ... and one complete symmetric encryption, so that random_seed exists (an empty one makes gpg print a note, again an "error" to vsb)
+    subprocess.run(["gpg", "--homedir", gh, "--batch", "--pinentry-mode", "loopback", "--passphrase", "x", "--symmetric", "-o", "-"],
+                   input=b"warm-up", stdout=subprocess.DEVNULL, stderr=subprocess.DEVNULL)
 
 
 def run_upload(sb, emu, now=None, timeout=90, extra_env=None, args=None):
     """returns dict(exit, out, seconds, timed_out, leftover=[cmdlines of processes of the session still alive])"""
+    # a gpg that vsb terminated in an earlier run may have died between truncating and rewriting random_seed; the next gpg then prints a note
+    # on stderr, which vsb reports as a failed upload.  That is gpg's state, not this run's fault: start every run from a warm home.
+    rs = sb.path("home", ".gnupg", "random_seed")
+    if not os.path.exists(rs) or os.path.getsize(rs) == 0:
+        warm_gpg(sb)
     env = dict(os.environ)
     env.update({"TZ": "UTC", "LC_ALL": "C", "HOME": sb.path("home"), "VSB_VERIF_HTTP_ENDPOINT": emu.endpoint})
     if now is not None:
@@ -155,3 +171,10 @@ def decrypt_members(sb, blob):
         for m in tf.getmembers():
             members[m.name.rstrip("/")] = tf.extractfile(m).read() if m.isfile() else None
     return members
+
+
+def kill_agents(sb):
+    """gpg may have started its agent daemon for the sandbox homes: stop them before the sandbox goes away"""
+    for gh in (sb.path("home", ".gnupg"), sb.path("gnupg-check")):
+        if os.path.isdir(gh):
+            subprocess.run(["gpgconf", "--homedir", gh, "--kill", "gpg-agent"], stdout=subprocess.DEVNULL, stderr=subprocess.DEVNULL)
